@@ -359,12 +359,18 @@ class _ImmutableTaskList:
         """
         return self._list.__add__(_to_list(other))
 
+    # noinspection PyProtectedMember
     def __lshift__(self, other: Union['Task', Iterable['Task']]):
+        for t in self:
+            t._check_predecessors(t.predecessors + other)
         for t in self:
             t.predecessors += other
         return other
 
+    # noinspection PyProtectedMember
     def __rshift__(self, other: Union['Task', Iterable['Task']]):
+        for t in self:
+            t._check_successors(t.successors + other)
         for t in self:
             t.successors += other
         return other
@@ -854,6 +860,20 @@ class Task:
         Setter for predecessor tasks
         :param value: new predecessors
         """
+        value = self._check_predecessors(value)
+
+        for v in self.__predecessors:
+            if self in v.__successors:
+                v.__successors.remove(self)
+
+        self.__predecessors = [v for v in value]
+
+        for v in value:
+            if self not in v.__successors:
+                v.__successors.append(self)
+
+    def _check_predecessors(self, value: Union['Task', Iterable['Task']]) -> List['Task']:
+        """Validates new predecessors. Returns them as list of unique tasks"""
         value = _unique_tasks(_to_list(value))
         _check_no_nones_in_list(value, 'predecessors')
 
@@ -871,15 +891,7 @@ class Task:
             if self in v.all_predecessors:
                 raise RuntimeError(f"{self.id} exists in {v.id} predecessors. Cyclic dependency")
 
-        for v in self.__predecessors:
-            if self in v.__successors:
-                v.__successors.remove(self)
-
-        self.__predecessors = [v for v in value]
-
-        for v in value:
-            if self not in v.__successors:
-                v.__successors.append(self)
+        return value
 
     @property
     def all_predecessors(self) -> _ImmutableTaskList:
@@ -905,6 +917,20 @@ class Task:
         Setter for direct successors
         :param value: new direct successors
         """
+        value = self._check_successors(value)
+
+        for v in self.__successors:
+            if self in v.__predecessors:
+                v.__predecessors.remove(self)
+
+        self.__successors = [v for v in value]
+
+        for v in value:
+            if self not in v.__predecessors:
+                v.__predecessors.append(self)
+
+    def _check_successors(self, value: Union['Task', Iterable['Task']]) -> List['Task']:
+        """Validates new successors. Returns them as list of unique tasks"""
         value = _unique_tasks(_to_list(value))
         _check_no_nones_in_list(value, 'successors')
 
@@ -922,15 +948,7 @@ class Task:
             if self in v.all_successors:
                 raise RuntimeError(f"{self.id} exists in {v.id} successors. Cyclic dependency")
 
-        for v in self.__successors:
-            if self in v.__predecessors:
-                v.__predecessors.remove(self)
-
-        self.__successors = [v for v in value]
-
-        for v in value:
-            if self not in v.__predecessors:
-                v.__predecessors.append(self)
+        return value
 
     @property
     def all_successors(self) -> _ImmutableTaskList:
